@@ -177,9 +177,11 @@ def work(item):
     cands, samples = [], []
     hits = {}
     nontrivial = 0
+    hist = []
     for d in item["exprs"]:
         ex.stats.obligations += 1
         f = roundtrip(ex, d)
+        hist.append(str(exprdsl.build(d)))
         if exprdsl.size(d) >= 3:
             nontrivial += 1
         if f is None:
@@ -191,6 +193,8 @@ def work(item):
         for x in h:
             hits[x] = hits.get(x, 0) + 1
         if viol is not None:
+            # the strings this process parsed before (a parser that keeps state between calls fails only after them)
+            viol["history"] = hist[-81:-1]
             cands.append(viol)
         else:
             ex.stats.discharged += 1
@@ -213,6 +217,19 @@ def replay(d):
         f = check_backtick(d["backtick"])
         return {"reproduced": f is not None, "detail": str(f)}
     m = d.get("minimal") or d["expr"]
+    first = roundtrip(None, m)
+    if first is None and d.get("history"):
+        # holds in a fresh process: repeat it after the parses that preceded it in the worker
+        from dagrt.expression import parse
+        for s in d["history"]:
+            try:
+                parse(s)
+            except Exception:  # noqa
+                pass
+        f = roundtrip(None, m)
+        if f is not None:
+            return {"reproduced": True, "detail": "expr %r round-trips in a fresh process but not after parsing %d other strings (%s ...): %s"
+                    % (str(exprdsl.build(m)), len(d["history"]), [h for h in d["history"] if "".join(h.split()) == "".join(str(exprdsl.build(m)).split())][:2] or d["history"][-3:], f)}
     for cand in (m, d["expr"]):
         f = roundtrip(None, cand)
         if f is not None:
@@ -286,6 +303,30 @@ def exhaustive_exprs():
     return out
 
 
+def lexical_family():
+    """Printed forms that differ only in where the blanks are: a keyword operator applied to a name next to a
+    variable whose name is the concatenation.  Parsed in one process, forwards then backwards, so a parser that
+    keeps state between calls (or a lexer that matches keywords by prefix) is seen in either order."""
+    V = lambda n: ["v", n]  # noqa
+    a, b, c = V("a"), V("b"), V("c")
+    fam = [
+        ["not", a], V("nota"), V("not_a"), V("no"), V("ta"),
+        ["not", V("_done")], V("not_done"), ["not", V("<p>k")], V("notk"),
+        ["and", a, b], V("aandb"), V("a_and_b"), ["and", V("a_"), V("_b")],
+        ["or", a, b], V("aorb"), ["or", V("a_"), V("_b")], V("a_or_b"),
+        ["if", c, a, b], V("aifcelseb"), V("a_if_c_else_b"),
+        ["and", ["not", a], V("nota")], ["or", V("nota"), ["not", a]],
+        ["call", "<func>f", [["not", a]], {}], ["call", "<func>f", [V("nota")], {}],
+        ["call", "<func>f", [a], {"k": ["not", b]}], ["call", "<func>f", [a], {"k": V("notb")}],
+        ["sub", V("v"), ["if", c, a, b]], ["sub", V("v"), V("aifcelseb")],
+        ["cmp", "<", a, V("<p>x")], ["cmp", ">", V("<p>x"), a],
+        ["if", ["not", c], V("nota"), ["not", a]], ["if", V("notc"), ["not", a], V("nota")],
+        ["+", a, ["c", 1]], V("a1"),
+        ["*", a, V("e5")], ["*", ["c", 1e5], a],
+    ]
+    return fam + fam[::-1]
+
+
 def backtick_names():
     alpha = ["a", "<", ">", ":", "_", "1", "B"]
     names = set()
@@ -341,11 +382,13 @@ def main(tier, seed):
     for _ in range(nrand):
         exprs.append(g.num(rng.choice([2, 3, 3, 4])) if rng.random() < 0.8 else g.boolean(rng.choice([1, 2, 3])))
     names = backtick_names()
-    run.bounds = {"exhaustive_expressions": n_exh, "random_expressions": nrand, "max_depth": 4,
+    lex = lexical_family()
+    run.bounds = {"lexical_family": len(lex), "exhaustive_expressions": n_exh, "random_expressions": nrand, "max_depth": 4,
                   "backtick_names": len(names)}
     parts = chunks(exprs, common.NPROC * 4)
     items = [{"exprs": p, "open_ids": open_ids} for p in parts]
     items[0]["names"] = names
+    items[0]["exprs"] = lex + list(items[0]["exprs"])
     for part in pmap("vf.checks.c19", "work", items):
         run.absorb(part)
     run.programs = len(exprs)
